@@ -243,6 +243,8 @@ def pdf_check(ctx, c, outs):
             k = int(np.argmax(np.abs(m - data)))
             res.append(f"pole_density_function(mrd={mrd}, res={c['res']}, sigma={c['sigma']}) bin {k} = {data[k]} "
                        f"but model = {m[k]} (rel {d:.3g})")
+    if not np.array_equal(v.data.reshape(-1, 3), np.array(c["vs"], float).reshape(-1, 3)):
+        res.append("pole_density_function changed its input vectors")
     return "; ".join(res) if res else None
 
 
@@ -421,7 +423,14 @@ def pdf_prop_check(ctx, c, outs):
     lo = float(ww[z > 1e-12].sum())       # surely in the hemisphere (equator exactly: in both)
     lo += float(ww[z == 0].sum())
     hi = lo + float(ww[(np.abs(z) <= 1e-12) & (z != 0)].sum())
-    args = (V(vs),) if not c.get("angles") else tuple(V(vs).to_polar()[:2])
+    if not c.get("angles"):
+        args = (V(vs),)
+    elif c["angles"] in ("atan2", "shift"):
+        # angles outside [0, 2 pi) that denote the same directions: numpy's arctan2 range (-pi, pi], azimuth + 2 pi
+        az = np.arctan2(vs[:, 1], vs[:, 0]) + (2 * np.pi if c["angles"] == "shift" else 0.0)
+        args = (az, np.arccos(np.clip(vs[:, 2] / np.linalg.norm(vs, axis=1), -1, 1)))
+    else:
+        args = tuple(V(vs).to_polar()[:2])
     h, (x, y) = pdf(*args, resolution=c["res"], sigma=c["sigma"], weights=w, hemisphere=hemi, mrd=False)
     d = np.ma.getdata(h)
     if np.ma.getmaskarray(h).any():
@@ -480,6 +489,19 @@ def pdf_sym_check(ctx, c, outs):
     gv = Gp[idx] * v
     kw = dict(resolution=c["res"], sigma=c["sigma"], weights=w, symmetry=Gp, mrd=c["mrd"])
     h1, _ = pdf(v, **kw)
+    if not np.array_equal(v.data.reshape(-1, 3), vs):
+        j = int(np.argmax(np.abs(v.data.reshape(-1, 3) - vs).max(axis=1)))
+        return (f"pole_density_function(v, symmetry={c['group']}) changed its input vectors: {vs[j].tolist()} -> "
+                f"{v.data.reshape(-1, 3)[j].tolist()}")
+    # the non-folded histogram of the SAME object afterwards still conserves the weight of each hemisphere
+    for hemi, sel in (("upper", vs[:, 2] > 1e-6), ("lower", vs[:, 2] < -1e-6)):
+        hh, _ = pdf(v, resolution=c["res"], sigma=0, weights=w, hemisphere=hemi, mrd=False)
+        strict = float(w[sel].sum())
+        loose = float(w[np.abs(vs[:, 2]) <= 1e-6].sum())
+        tot = float(np.ma.getdata(hh).sum())
+        if not (strict - 1e-9 * max(1.0, strict) <= tot <= strict + loose + 1e-9 * max(1.0, strict)):
+            return (f"after a folded density was computed from the same vectors, the {hemi}-hemisphere histogram sums to {tot} "
+                    f"but the weight in that hemisphere is {strict}")
     h2, _ = pdf(gv, **kw)
     m1, m2 = np.ma.getmaskarray(h1), np.ma.getmaskarray(h2)
     if not np.array_equal(m1, m2):
@@ -666,7 +688,8 @@ def generate(ctx):
                   ("pdf", pole, res, sigma, vs, w))
         if k < 2:
             ctx.sample({"site": "pdf", "pole": pole, "res": res, "sigma": sigma, "vs": vs[:5], "w": None if w is None else w[:5]})
-        yield "pdf", {"pole": pole, "res": res, "sigma": sigma, "vs": vs, "w": w, "angles": bool(k % 5 == 1)}
+        yield "pdf", {"pole": pole, "res": res, "sigma": sigma, "vs": vs, "w": w,
+                      "angles": [False, True, False, "atan2", False, "shift", True, False][k % 8]}
         if res >= 7.5 and sigma / res <= 2.0:
             ctx.count(f"pdf_model/{HEMI[pole]}/{'identity' if ident else 'smoothed'}", ("pdfm", pole, res, sigma, vs, w))
             yield "pdf_model", {"pole": pole, "res": res, "sigma": sigma, "vs": vs,
